@@ -87,7 +87,7 @@ func withParams(w *sim.World, ctx sdk.Context, ty int, L *big.Int, count int64) 
 	p := sim.DefaultParams()
 	p.CollateralParams[ty].LiquidationRatio = decM(L)
 	p.CollateralParams[ty].CheckCollateralizationIndexCount = sdkmath.NewInt(count)
-	w.Keeper().SetParams(ctx, p)
+	kapp.SetParams(w.App, ctx, "cdp", &p, func() { w.Keeper().SetParams(ctx, p) })
 	return p
 }
 
